@@ -55,7 +55,7 @@ def run(tier, seed):
     alpha = container.op_alphabet(G)
     # ---- small files: op sequences x codec x level x block size; written values are the ones whose serialize returned Ok
     wcmds = []
-    levels = {"null": [None], "deflate": [None, 1, 9, 200], "bzip2": [None, 1, 9], "snappy": [None], "xz": [None, 0 + 1, 9],
+    levels = {"null": [None], "deflate": [None, 1, 9, 200], "bzip2": [None, 1, 9, 10, 200], "snappy": [None], "xz": [None, 0 + 1, 9, 10, 255],
               "zstandard": [None, 1, 19, 100]}
     seqs = ["", "s", "ssx", "sBpxBs", "BBBB", "psfsFB", "xsx", "ssssssss", "pp", "FfBx"]
     for cd in container.CODECS:
